@@ -66,6 +66,13 @@ theorem agree_step_self (p : Program) (hp : ∀ t, ∀ s ∈ p t, stepRO own sha
       split
       · rfl
       · exact hm l' hl'
+    case rmw l g =>
+      refine ⟨by simp [exec, advance, access, viewOf, upd, h1, h2, h3, h4], ?_⟩
+      intro l' hl'
+      simp only [exec, advance, access, upd, h3, hm l (Or.inl hro)]
+      split
+      · rfl
+      · exact hm l' hl'
 
 theorem agree_step_other (hdisj : ∀ t t' l, own t l = true → own t' l = true → t = t')
     (hsh : ∀ t l, shared l = true → own t l = false)
@@ -93,6 +100,17 @@ theorem agree_step_other (hdisj : ∀ t t' l, own t l = true → own t' l = true
         · rw [hsh u _ hl'] at hro; exact absurd hro (by simp)
       · rfl
     case writeF l g =>
+      refine ⟨by simp [exec, advance, access, viewOf, upd, hne'], ?_⟩
+      intro l' hl'
+      simp only [exec, advance, access, upd]
+      split
+      · next he =>
+        subst he
+        rcases hl' with hl' | hl'
+        · exact absurd (hdisj _ _ _ hl' hro) hne'
+        · rw [hsh u _ hl'] at hro; exact absurd hro (by simp)
+      · rfl
+    case rmw l g =>
       refine ⟨by simp [exec, advance, access, viewOf, upd, hne'], ?_⟩
       intro l' hl'
       simp only [exec, advance, access, upd]
@@ -194,6 +212,19 @@ theorem ownInv_step (hdisj : ∀ t t' l, own t l = true → own t' l = true → 
         · next he => subst he; rw [hsh t _ hl'] at hro; exact absurd hro (by simp)
         · exact i3 l' hl'
     case writeF l g =>
+      have hu := unordered_nil own shared hdisj hsh i1 t l true (fun _ => hro) (Or.inl hro)
+      refine ⟨?_, by simp [exec, advance, access, hu, i2], ?_⟩
+      · intro a ha
+        simp only [exec, advance, access, List.mem_cons] at ha
+        rcases ha with rfl | ha
+        · exact ⟨fun _ => hro, Or.inl hro⟩
+        · exact i1 a ha
+      · intro l' hl'
+        simp only [exec, advance, access, upd]
+        split
+        · next he => subst he; rw [hsh t _ hl'] at hro; exact absurd hro (by simp)
+        · exact i3 l' hl'
+    case rmw l g =>
       have hu := unordered_nil own shared hdisj hsh i1 t l true (fun _ => hro) (Or.inl hro)
       refine ⟨?_, by simp [exec, advance, access, hu, i2], ?_⟩
       · intro a ha
